@@ -1,8 +1,8 @@
 SPECIFICATION GSpec
 CONSTANTS
-  T = 5
-  MaxCrashes = 2
-  MaxSaves = 2
+  T = 8
+  MaxCrashes = 1
+  MaxSaves = 1
   Cads <- One
   Impl = "state"
 INVARIANT Emit
